@@ -218,3 +218,22 @@ Definition world0 : world := (mkB 1%N 0%N true, mkP None 0%N Pending true false)
 Definition run (c : cfg) (evs : list event) : world := fold_left (step c) evs world0.
 
 Definition plain : tickflags := mkTF false false false None.
+
+(** ** the status row of what is served
+
+    [GET status] is answered from the same published set as every other table: its
+    program_start / nagios_pid / program_version are those of the backend process the
+    served object set was loaded from. [idents_of evs] lists, per object set version
+    (index = version), the identity of the backend process that had it. *)
+Definition served_ident (p : peer) : option N :=
+  match published p with Some _ => Some (ident p) | None => None end.
+
+Fixpoint idents_from (cur : N) (acc : list N) (evs : list event) : list N :=
+  match evs with
+  | [] => acc
+  | ERestart :: r => idents_from (cur + 1)%N (acc ++ [(cur + 1)%N]) r
+  | EChange :: r => idents_from cur (acc ++ [cur]) r
+  | _ :: r => idents_from cur acc r
+  end.
+
+Definition idents_of (evs : list event) : list N := idents_from 1%N [1%N] evs.
